@@ -146,12 +146,12 @@ opened('F-MLPROP', ['C02', 'C13', 'C15'], 'a multi-line property / project value
 s = ASchema(tables=[T(cols=[AColumn('id', ('plain', 'varchar'), default=('str', 'l1\nl2'))])])
 opened('F-MLDEFAULT', ['C02', 'C13'], 'a multi-line string default / index name is rendered in single quotes (unparseable); a multi-line expression default gains indentation',
        {'C02': c02(s)}, 'pydbml/renderer/dbml/default/column.py:default_to_str, index.py', 'multiline_default')
-s = ASchema(tables=[T(cols=[AColumn('id', ('plain', 'character varying'))])])
-opened('F-TYPEQUOTE', ['C02'], 'a column type that needs quoting ("character varying") is rendered bare and does not parse back',
-       {'C02': c02(s)}, 'pydbml/renderer/dbml/default/column.py:render_column', 'quoted_type')
-s = ASchema(tables=[T(cols=[AColumn('id', ('plain', 'float'), default=('float', 1e-05))])])
-opened('F-FLOATEXP', ['C02'], 'a float default whose repr uses an exponent (1e-05) is rendered as such and does not parse back',
-       {'C02': c02(s)}, 'pydbml/renderer/dbml/default/column.py:default_to_str', 'float_exp')
+s = ASchema(tables=[T(cols=[AColumn('id', ('plain', 'character varying')), AColumn('b', ('plain', 'my type(3)'))])])
+fixed('F-TYPEQUOTE', ['C02'], 'dc07908', 'a column type that needs quoting ("character varying") was rendered bare and did not parse back',
+      {'C02': c02(s)}, 'pydbml/renderer/dbml/default/column.py:render_column')
+s = ASchema(tables=[T(cols=[AColumn('id', ('plain', 'float'), default=('float', 1e-05)), AColumn('b', ('plain', 'float'), default=('float', 1e+22))])])
+fixed('F-FLOATEXP', ['C02'], '40d2ae8', 'a float default whose repr uses an exponent (1e-05) was rendered as such and did not parse back',
+      {'C02': c02(s)}, 'pydbml/renderer/dbml/default/column.py:default_to_str')
 s = ASchema(tables=[T(note="a'''b")])
 opened('F-TRIPLE', ['C02', 'C13'], "text containing ''' inside a single-line literal is escaped only at its first quote and ends the literal early",
        {'C02': c02(ASchema(tables=[T(cols=[AColumn('id', ('plain', 'int'), note="a'''b")])])), 'C13': dict(string="a'''b", arm='render')},
